@@ -202,6 +202,13 @@ pub trait Engine {
     fn required_probes(_prop: &str, _tier: Tier) -> Vec<&'static str> {
         Vec::new()
     }
+    /// Whether the code under test contains a source of nondeterminism that the simulator cannot
+    /// own (actix-rt: a randomly keyed HashMap). Only then may a violation that appears in some
+    /// executions of a seed but not in others be reported (as *unstable*); for every other engine
+    /// such a divergence is a harness error.
+    fn allow_unstable() -> bool {
+        false
+    }
     /// Called once per process before the first run.
     fn process_init() {}
 }
@@ -651,8 +658,8 @@ fn worker_main<E: Engine>(args: &Args, i: u64, n: u64) -> i32 {
                     }
                 }
                 match hit {
-                    Some((v, taken)) => found(&mut out, &mut seen_keys, seed, "unstable", v.fact("unstable", true), &cfg, &taken),
-                    None => out.determinism_mismatch.push(format!("seed {seed}: second seeded run differs")),
+                    Some((v, taken)) if E::allow_unstable() => found(&mut out, &mut seen_keys, seed, "unstable", v.fact("unstable", true), &cfg, &taken),
+                    _ => out.determinism_mismatch.push(format!("seed {seed}: second seeded run differs")),
                 }
             } else if v3.is_some() || c3.trace_hash() != h1 {
                 let t2 = c2.trace.unwrap_or_default();
@@ -669,7 +676,7 @@ fn worker_main<E: Engine>(args: &Args, i: u64, n: u64) -> i32 {
                         hit = Some((v, chx.taken.clone()));
                     }
                 }
-                if let Some((v, taken)) = hit {
+                if let (Some((v, taken)), true) = (hit, E::allow_unstable()) {
                     found(&mut out, &mut seen_keys, seed, "unstable", v.fact("unstable", true), &cfg, &taken);
                 } else {
                 out.determinism_mismatch.push(format!(
@@ -1373,7 +1380,7 @@ fn parent_main<E: Engine>(args: &Args) -> i32 {
         // the code under test (e.g. hash iteration order): mark the file unstable and let the
         // replay command re-execute it repeatedly before giving up.
         let mut unstable = unstable;
-        let reproduced = if !reproduced && !unstable && class != "hang" && class != "abort" {
+        let reproduced = if !reproduced && !unstable && class != "hang" && class != "abort" && E::allow_unstable() {
             let mut rf2 = rf.clone();
             rf2.unstable = true;
             fs::write(&file, serde_json::to_vec_pretty(&rf2).unwrap()).unwrap();
